@@ -6,7 +6,7 @@ use crate::gen::{self, words, LitCfg};
 use crate::runner::{pick_idx, CaseReport, Ctx};
 use crate::tool::{ratio, rpow, run, shared_db, Mirror, R};
 use crate::units_ref::vocab;
-use num::BigRational;
+use num::{BigRational, One};
 use proptest::prelude::*;
 use serde::{Deserialize, Serialize};
 use serde_json::{json, Value};
@@ -130,6 +130,53 @@ fn other_unit() -> impl Strategy<Value = Word> {
     })
 }
 
+/// Two different proportional units of the same dimension (m / ft, s / min, kg / lb ...): their quotient is a
+/// pure number, so `<scale>*u1/u2` has the dimension of a temperature although the scale is not alone.
+fn ratio_pair() -> impl Strategy<Value = (Word, Word)> {
+    (any::<u16>(), any::<u16>()).prop_map(|(i, j)| {
+        let w = words();
+        let v = vocab();
+        let pool: Vec<&Word> = w.all.iter().filter(|x| x.safe && x.word.prefix == 0 && !v.units[x.word.unit].offset && v.units[x.word.unit].dim[4] == 0).map(|x| &x.word).collect();
+        let a = pool[pick_idx(i, pool.len())];
+        let same: Vec<&&Word> = pool.iter().filter(|b| b.unit != a.unit && v.units[b.unit].dim == v.units[a.unit].dim).collect();
+        if same.is_empty() {
+            // fall back to a pair that always exists
+            let m = pool.iter().find(|x| x.text == "m").unwrap();
+            let ft = pool.iter().find(|x| x.text == "ft").unwrap();
+            return ((*m).clone(), (*ft).clone());
+        }
+        (a.clone(), (**same[pick_idx(j, same.len())]).clone())
+    })
+}
+
+/// Source and target of different shape: a lone scale on one side, on the other a scale times a
+/// dimensionless ratio of two units.  Dimensions agree, so the cast is not refused for that reason; it must be
+/// refused because of the scale, or convert the degree as an interval on BOTH sides — a result in which the lone
+/// side got its zero point added and the other did not is the violation.
+fn mixed_shape() -> impl Strategy<Value = Case> {
+    (lit(), scale(), scale(), ratio_pair(), any::<bool>(), any::<bool>())
+        // the scale inside the compound must be an offset scale (a lone °C against `K*s/min` is an ordinary
+        // affine conversion of a lone scale into kelvin and then a proportional one: nothing to refuse)
+        .prop_filter("the scale inside the compound must be an offset scale", |(_, a, b, _, compound_is_target, _)| if *compound_is_target { b.0 != Scale::K } else { a.0 != Scale::K })
+        .prop_map(|(x, a, b, (u1, u2), compound_is_target, star)| {
+            let j = if star { "*" } else { " " };
+            let v = vocab();
+            let t = &observed().table;
+            let s1 = t.get(&v.units[u1.unit].key()).cloned().unwrap_or_else(BigRational::one);
+            let s2 = t.get(&v.units[u2.unit].key()).cloned().unwrap_or_else(BigRational::one);
+            let da = a.0.degree() * crate::tool::pow10(a.2 as i64);
+            let db = b.0.degree() * crate::tool::pow10(b.2 as i64);
+            let ratio_size = &s1 / &s2;
+            let (q, interval) = if compound_is_target {
+                (format!("{} {} to {}{}{}/{}", x.text, a.1, b.1, j, u1.text, u2.text), &x.value * &da / (&db * &ratio_size))
+            } else {
+                (format!("{} {}{}{}/{} to {}", x.text, a.1, j, u1.text, u2.text, b.1), &x.value * &da * &ratio_size / &db)
+            };
+            let shifts = vec![rat(&(&interval + ratio(27315, 100))), rat(&(&interval - ratio(27315, 100)))];
+            Case::NotAlone { query: q, interval: rat(&interval), shift_examples: shifts }
+        })
+}
+
 fn not_alone() -> impl Strategy<Value = Case> {
     (lit(), scale(), scale(), prop_oneof![Just(1i32), Just(-1), Just(2), Just(-2), Just(3), Just(-3)], prop::collection::vec((other_unit(), prop_oneof![Just(1i32), Just(-1), Just(2)]), 0..=2), any::<bool>())
         .prop_filter("an offset scale must be involved and not alone", |(_, a, b, p, others, _)| (a.0 != Scale::K || b.0 != Scale::K) && (*p != 1 || !others.is_empty()))
@@ -222,6 +269,7 @@ pub fn run_check(ctx: &Ctx) {
     let n = ctx.tier.pick(150_000u64, 3_000_000);
     ctx.run_gen("chains", chain, n, check, |c| to_json(c));
     ctx.run_gen("not-alone", not_alone, n / 2, check, |c| to_json(c));
+    ctx.run_gen("not-alone-mixed-shape", mixed_shape, n / 4, check, |c| to_json(c));
     let _ = USpell { factors: vec![], slash: false, star: false, noise: 0, starstar: false };
 }
 
